@@ -10,7 +10,8 @@ EXPL = ("R13.1 the slot guard's destructor sends the closed value exactly once o
         "None when a slot already exists, before creating a new one. R13.4 type structure: the wait mode carries a FlushGuard, which "
         "carries the keep-alive Guard; SlotGuard is not Clone. R13.5 a value received from the guard's channel is "
         "stored into the slot only on paths (followed across the await points of the future) that took the receiver out of the slot or "
-        "checked that no value is held: a delivered value is never replaced by the None of a spent channel. Not decided: which thread drops what when.")
+        "checked that no value is held: a delivered value is never replaced by the None of a spent channel. R13.6 Slot::close reads the channel "
+        "only on the branch where no received value is held. Not decided: which thread drops what when.")
 MQ = "metrique"
 SLOT = "metrique::slot::"
 
@@ -128,6 +129,7 @@ def run(ctx):
     ctx.check(len(data_f) == 1 and len(rx_f) == 1, "R13.5", SLOT + "Slot#fields", "", "cannot identify the received-value field / the receiver field of Slot (%s / %s)" % (data_f, rx_f),
               "received value: .%s, receiver: .%s" % (data_f, rx_f))
     n5 = 0
+    spent_receiver_possible = []      # bodies that can store a received value while leaving the (then spent) receiver in the slot
     if len(data_f) == 1 and len(rx_f) == 1:
         df, rf = data_f[0], rx_f[0]
         for b in F.all_bodies(MQ):
@@ -158,6 +160,17 @@ def run(ctx):
                                 none_edges.add((sw, tt))
             for sbb in stores:
                 n5 += 1
+                # T: reached only through a take of the receiver (then `receiver present` implies `nothing received yet`)
+                seen_t, stk_t = {0}, [0]
+                while stk_t:
+                    x = stk_t.pop()
+                    for y in succ(x):
+                        if y in seen_t or x in consume:
+                            continue
+                        seen_t.add(y)
+                        stk_t.append(y)
+                if sbb in seen_t and 0 not in consume:
+                    spent_receiver_possible.append(fnkey(b))
                 seen, stk = {0}, [0]
                 while stk:
                     x = stk.pop()
@@ -172,6 +185,38 @@ def run(ctx):
                           "already consumed channel, and the entry is emitted without it" % (df, rf),
                           "every path to the store consumes the receiver (bb%s) or checks the value is absent" % sorted(consume))
     ctx.floor("R13.5", "stores of a received slot value", n5, 1)
+    # ------------------------------------------------------------------ R13.6 at close, a value already held wins over the channel
+    # close() may look into the channel only on the branch where no received value is held: a receiver left in place after a completed
+    # wait is spent, and asking it again yields None
+    n6 = 0
+    if len(data_f) == 1:
+        df = data_f[0]
+        for b in closes:
+            if "slot::Slot<" not in ((b.impl or {}).get("self_ty") or "") and not ((b.impl or {}).get("self_ty") or "").endswith("slot::Slot"):
+                continue
+            pr = Prov(b)
+            dom = b.dominators()
+            recvs = [c for c in b.calls() if c.name == "try_recv" or any(sb.crate == MQ and any(x.name == "try_recv" for x in sb.calls()) for sb in local_callee_bodies(F, c))]
+            none_edges = []
+            for i in b.live_blocks():
+                t = b.term(i)
+                if t["k"] != "switch":
+                    continue
+                for s_ in b.stmts(i):
+                    if s_["k"] == "assign" and s_["rv"]["k"] == "discr":
+                        o = pr.place(s_["rv"]["place"])
+                        if any(x[0] == "arg" and x[1] == 1 and x[2] and x[2][0] == df for x in o):
+                            tg = {v: tb for v, tb in t["targets"]}
+                            none_edges.append(t["otherwise"] if 1 in tg else tg.get(0))
+            for c in recvs:
+                n6 += 1
+                ok = any(nt is not None and (nt == c.bb or dominates(b, nt, c.bb, dom)) for nt in none_edges) or not spent_receiver_possible
+                ctx.check(ok, "R13.6", fnkey(b) + "#channel-consulted-only-without-held-value", loc(b, c.bb),
+                          "closing a slot asks the channel for the value on a path that has not established that no received value is held: after a "
+                          "completed wait the receiver is spent, so the value that was delivered in time is reported as absent",
+                          "the receive is dominated by the `no value held` branch" if spent_receiver_possible else
+                          "a receiver is present only while nothing was received (every store of a received value takes the receiver out)")
+    ctx.floor("R13.6", "channel reads in Slot::close", n6, 1)
     # compile-fail witnesses (type-level part of the property), discharged by rustc's type checker
     from mq import witness as _w
     _w.report_cf(ctx, "W13", _w.run_witness(), "C13")
